@@ -121,10 +121,12 @@ theorem unsupported_ne (w : String) :
     "unsupported: " ++ w ≠ "stack underflow" ∧ NoBad ("unsupported: " ++ w) := by
   refine ⟨?_, ?_, ?_, ?_⟩ <;> intro h <;> have := congrArg String.toList h <;> simp at this
 
-/-- What an instruction with `simpleEff i = some (p, q)` does: it needs `p` operands, replaces
-them by `q`, and moves to the next instruction; an interrupt leaves at most `p` operands fewer. -/
+/-- What an instruction with `simpleEff i = some (p, q)` does: it needs at most `p` operands (with
+fewer it may panic with "stack underflow"), replaces them by `q`, and moves to the next instruction;
+an interrupt leaves at most `p` operands fewer. (`loadSingleton` touches its operand only when the
+host provides a value: completing does not show that `p` operands were there.) -/
 def SimpleSpec (s : VMState) (p q : Nat) : StepRes → Prop :=
-  Sat3 (fun s' => p ≤ s.stack.length ∧ s'.stack.length + p = s.stack.length + q ∧ s'.calls = advCalls s.calls ∧ Keeps s s')
+  Sat3 (fun s' => s'.stack.length + p = s.stack.length + q ∧ s'.calls = advCalls s.calls ∧ Keeps s s')
        (fun _ s' => p ≤ s.stack.length ∧ s.stack.length ≤ s'.stack.length + p ∧ s'.stack.length ≤ s.stack.length
           ∧ s'.calls = s.calls ∧ Keeps s s')
        (fun why => (why = "stack underflow" → s.stack.length < p) ∧ NoBad why)
